@@ -515,6 +515,12 @@ func (b *Buffer) cleanup() {
 			go func() {
 				defer timer.Stop() // just in case, ensure the timer gets stopped
 				defer func() {
+					// the re-broadcast must happen while holding the buffer's lock (same order as the cleanup
+					// goroutine: buffer lock, then mutex), otherwise it may land between the cleanup goroutine
+					// flagging a missed change and it re-entering cond.Wait, and be lost
+					b.mutex.Lock()
+					defer b.mutex.Unlock()
+
 					// lock on the mutex, so that the timer removal and broadcast checking / performing is synced
 					mutex.Lock()
 					defer mutex.Unlock()
